@@ -1,0 +1,61 @@
+//go:build verif
+
+// Contracts for package network (comment-only; compiled only with -tags verif).
+// Checked by /verif (contract-based deductive verification); see /verif/DESIGN.md.
+package network
+
+//@ type libp2pDataTransferNetwork
+//@   nonnil host
+
+//@ extern func (github.com/libp2p/go-libp2p/core/host.Host).NewStream
+//@   ensures [libp2p] result1 == nil ==> result0 != nil
+//@ extern func (github.com/filecoin-project/go-data-transfer/v2.Message).MessageForProtocol
+//@   ensures [refined-by-message1_1] result1 == nil ==> result0 != nil
+
+//@ func (*network.libp2pDataTransferNetwork).openStream {C15}
+//@   requires ctx != nil
+//@   cancellable ctx
+//@   loop 0 invariant [attempts-counted] ncalls(Host.NewStream) == backoffAttempts(b) && backoffAttempts(b) >= 0 &&
+//@       (backoffAttempts(b) == 0 || backoffAttempts(b) < impl.maxStreamOpenAttempts)
+//@   ensures [bounded] ncalls(Host.NewStream) >= 1 && (ncalls(Host.NewStream) == 1 || ncalls(Host.NewStream) - 1 < impl.maxStreamOpenAttempts)
+//@   ensures [success-iff-last-attempt-succeeded] err == nil ==> last(Host.NewStream, $r1 == nil) && result0 == ret_last(Host.NewStream, 0)
+//@   ensures [failure] err != nil ==> result0 == nil
+//@   ensures [stream] err == nil ==> result0 != nil
+//@   ensures [target] all(Host.NewStream, $2 == id)
+
+//@ func (*network.libp2pDataTransferNetwork).SendMessage {C15}
+//@   requires ctx != nil && outgoing != nil
+//@   ensures [open-failure] ret(libp2pDataTransferNetwork.openStream, 1) != nil ==> result == ret(libp2pDataTransferNetwork.openStream, 1) &&
+//@       never(libp2pDataTransferNetwork.msgToStream) && seq(libp2pDataTransferNetwork.openStream)
+//@   ensures [target] called(libp2pDataTransferNetwork.openStream, _, _, p) && calls(libp2pDataTransferNetwork.openStream) == 1
+//@   ensures [once] calls(libp2pDataTransferNetwork.msgToStream) <= 1 && all(libp2pDataTransferNetwork.msgToStream, $2 == ret(libp2pDataTransferNetwork.openStream, 0))
+//@   ensures [reset-on-write-error] calls(libp2pDataTransferNetwork.msgToStream) == 1 && ret(libp2pDataTransferNetwork.msgToStream, 0) != nil ==>
+//@       last(Stream.Reset) && result != nil && never(Stream.Close)
+//@   ensures [close-on-success] calls(libp2pDataTransferNetwork.msgToStream) == 1 && ret(libp2pDataTransferNetwork.msgToStream, 0) == nil ==>
+//@       last(Stream.Close) && never(Stream.Reset) && result == ret(Stream.Close, 0)
+
+//@ func (*network.libp2pDataTransferNetwork).msgToStream {C15}
+//@   requires msg != nil && s != nil && ctx != nil
+//@   ensures [writes-once] calls(Message.ToNet) <= 1 && all(Message.ToNet, $0 == msg && $1 == s)
+//@   ensures [write-error] calls(Message.ToNet) == 1 && ret(Message.ToNet, 0) != nil ==> result == ret(Message.ToNet, 0)
+//@   ensures [ok] result == nil ==> calls(Message.ToNet) == 1
+
+//@ func (*network.libp2pDataTransferNetwork).ConnectWithRetry {C15}
+//@   requires ctx != nil
+//@   ensures [uses-retry] first(libp2pDataTransferNetwork.openStream, $2 == p) && calls(libp2pDataTransferNetwork.openStream) == 1
+
+//@ func (*network.libp2pDataTransferNetwork).handleNewStream {C15,C05}
+//@   requires s != nil
+//@   after Stream.Conn [libp2p] $r0 != nil
+//@   loop 0 invariant [peer-fixed] true
+//@   loop 0 step [one-handler-by-kind] calls(FromNet) == 1 && ret(FromNet, 1) == nil &&
+//@       calls(Receiver.ReceiveRequest) + calls(Receiver.ReceiveResponse) + calls(Receiver.ReceiveRestartExistingChannelRequest) == 1 &&
+//@       (ret(FromNet, 0).IsRequest() ?
+//@           (ret(FromNet, 0).(datatransfer.Request).IsRestartExistingChannelRequest() ? calls(Receiver.ReceiveRestartExistingChannelRequest) == 1 : calls(Receiver.ReceiveRequest) == 1)
+//@           : calls(Receiver.ReceiveResponse) == 1)
+//@   loop 0 step [authenticated-peer] all(Receiver.ReceiveRequest, $2 == p && $3 == ret(FromNet, 0)) && all(Receiver.ReceiveResponse, $2 == p && $3 == ret(FromNet, 0)) &&
+//@       all(Receiver.ReceiveRestartExistingChannelRequest, $2 == p && $3 == ret(FromNet, 0))
+//@   ensures [peer-is-remote] calls(ConnMultiaddrs.RemotePeer) + calls(Conn.RemotePeer) <= 1
+//@   ensures [no-receiver] dtnet.receiver == nil ==> called(Stream.Reset, _) && never(FromNet)
+//@   ensures [malformed] calls(FromNet) >= 1 && ret_last(FromNet, 1) != nil && ret_last(FromNet, 1) != io.EOF && ret_last(FromNet, 1) != io.ErrUnexpectedEOF ==>
+//@       calls(Stream.Reset) >= 1 && spawned(Receiver.ReceiveError)
